@@ -10,7 +10,11 @@
    values and are only checked for format and order by the harness. *)
 From Dastard Require Import Common.ZX C06.Model.
 
-Record sfiles := { f_state : option (list (list Z)); f_ext : option (list Z); f_drop : option (list (Z * Z)) }.
+(* a line of the experiment-state file: (time-stamp class, label); class 0 = stamped from the wall clock by the
+   implementation (checked for format / order / plausibility by the harness), any other value = the offset from
+   the start of the case, in ns, of a time stamp SUPPLIED with the request (must appear verbatim) *)
+Definition sline : Type := (Z * list Z)%type.
+Record sfiles := { f_state : option (list sline); f_ext : option (list Z); f_drop : option (list (Z * Z)) }.
 Definition no_files : sfiles := {| f_state := None; f_ext := None; f_drop := None |}.
 
 Record st20 := { wc : st; sf : sfiles }.
@@ -18,20 +22,20 @@ Record st20 := { wc : st; sf : sfiles }.
 Definition init20 (c : config) : st20 := {| wc := init c; sf := no_files |}.
 
 (* setExperimentStateLabel: create the file on first use, then append one line *)
-Definition set_state_label (f : sfiles) (l : list Z) : sfiles :=
+Definition set_state_label (f : sfiles) (l : sline) : sfiles :=
   {| f_state := Some (match f_state f with None => [l] | Some ls => ls ++ [l] end);
      f_ext := f_ext f; f_drop := f_drop f |}.
 
 (* content of the three files as read back after they were closed; x_fmt = headers, line formats and
    time stamps well-formed (a multi-line label makes a line without time stamp) *)
-Record files3 := { x_ext : option (list Z); x_drop : option (list (Z * Z)); x_state : option (list (list Z));
+Record files3 := { x_ext : option (list Z); x_drop : option (list (Z * Z)); x_state : option (list sline);
                    x_fmt : bool }.
 
 (* WritingState.Stop: label STOP if the state file exists, close it; flush and close the other two; reset *)
 Definition stop_files (f : sfiles) : files3 * sfiles :=
-  let stf := match f_state f with None => None | Some ls => Some (ls ++ [sSTOP]) end in
+  let stf := match f_state f with None => None | Some ls => Some (ls ++ [(0, sSTOP)]) end in
   ({| x_ext := f_ext f; x_drop := f_drop f; x_state := stf;
-      x_fmt := match stf with None => true | Some ls => forallb single_line ls end |}, no_files).
+      x_fmt := match stf with None => true | Some ls => forallb (fun e => single_line (snd e)) ls end |}, no_files).
 
 (* HandleExternalTriggers: the file name is non-empty exactly while writing is active (set by Start,
    cleared by Stop) *)
@@ -53,13 +57,16 @@ Definition handle_drop (act : bool) (f : sfiles) (drops first : Z) : sfiles :=
     {| f_state := f_state f; f_ext := f_ext f; f_drop := Some (ds ++ [(first, drops)]) |}
   else f.
 
-Inductive op20 := Req (o : op) | BLK (ext : list Z) (drops first : Z).
+(* TLABEL: AnySource.SetExperimentStateLabel called with a caller-supplied time stamp (offset [off] <> 0 from the
+   start of the case); this level has no empty-label check *)
+Inductive op20 := Req (o : op) | BLK (ext : list Z) (drops first : Z) | TLABEL (off : Z) (l : list Z).
 
 (* request: reply class, the files of the span that this request closed (read only when the pattern was
    non-empty before and writing is inactive after), nothing open any more;  block: error or not *)
 Inductive obs20 :=
 | OR (ok : bool) (files : option files3) (closed : bool)
 | OB (err : bool)
+| OT (ok : bool)
 | OP
 | OX.
 
@@ -77,15 +84,15 @@ Definition step20_gen (fx : bool) (s : st20) (o : op20) : st20 * obs20 :=
             match q with
             | WC rq =>
                 match classify (rq_str rq) with
-                | KStart => if ok then (None, set_state_label (sf s) sSTART) else (None, sf s)
+                | KStart => if ok then (None, set_state_label (sf s) (0, sSTART)) else (None, sf s)
                 | KStop => if ok then let (x, f1) := stop_files (sf s) in (Some x, f1) else (None, sf s)
                 | KUnpause => match unpause_arg (rq_str rq) with
-                              | ULabel l => if ok then (None, set_state_label (sf s) l) else (None, sf s)
+                              | ULabel l => if ok then (None, set_state_label (sf s) (0, l)) else (None, sf s)
                               | _ => (None, sf s)
                               end
                 | _ => (None, sf s)
                 end
-            | LABEL l => if ok then (None, set_state_label (sf s) l) else (None, sf s)
+            | LABEL l => if ok then (None, set_state_label (sf s) (0, l)) else (None, sf s)
             | PUB _ _ => (None, sf s)
             end in
           ({| wc := w'; sf := f' |},
@@ -95,6 +102,11 @@ Definition step20_gen (fx : bool) (s : st20) (o : op20) : st20 * obs20 :=
   | BLK ext drops first =>
       let act := active (rs (wc s)) in
       ({| wc := wc s; sf := handle_drop act (handle_ext act (sf s) ext) drops first |}, OB false)
+  | TLABEL off l =>
+      (* WritingState.SetExperimentStateLabel: refused while not active and (repaired code) for a multi-line label *)
+      if active (rs (wc s)) && (negb fx || single_line l)
+      then ({| wc := wc s; sf := set_state_label (sf s) (off, l) |}, OT true)
+      else (s, OT false)
   end.
 
 Definition step20 := step20_gen true.
